@@ -1857,3 +1857,9 @@ Proof.
     apply (Hlone (fst kv, Kept (Leaf id)) b r id Hget).
     unfold lone_candidate. cbn [fst snd]. unfold tag_of in Ht. rewrite Hleaf in Ht. rewrite Ht, Hik, Hex. reflexivity.
 Qed.
+
+(** a key named like the base of a merged group collides whatever its value is: a string (the empty string is Leaf 0
+    like any other), a number, a bool, a lone variable, a range table, an explicit `null` (modelled RangesV), sub-keys *)
+Lemma collision_any_value : forall cats (v : ival),
+  merge_level (fun _ => true) cats [] [(w_x, v); (w_x_one, Leaf 1); (w_x_other, Leaf 2)] = RErr ECollide [w_x].
+Proof. intros cats v. destruct v; vm_compute; reflexivity. Qed.
